@@ -44,6 +44,25 @@ def coord_with_digits(d, neg, rng):
     return -v if neg else v
 
 
+CAL = {"dec": 6}
+
+
+def calibrate():
+    """Observe how many decimals the writer under monitoring prints (the length targeting must follow the implementation, not assume it)."""
+    import networkx as nx
+    import tucan.io.molfile_writer as mw
+    g = nx.Graph()
+    g.add_node(0, element_symbol="C", atomic_number=6, partition=0, x_coord=1.5, y_coord=0.0, z_coord=0.0)
+    orig = monitors.S.orig.get("graph_to_molfile", mw.graph_to_molfile)
+    try:
+        line = next(l for l in orig(g).split("\n") if l.startswith("M  V30 1 C "))
+        tok = line.split()[4]
+        CAL["dec"] = len(tok.split(".")[1]) if "." in tok else 0
+    except Exception:
+        pass
+    return CAL["dec"]
+
+
 def targeted_graph(rng, target):
     """One molecule whose first atom line has logical length `target` (others random near the wrap)."""
     import networkx as nx
@@ -67,10 +86,10 @@ def targeted_graph(rng, target):
         tail = (f" CHG={a.chg}" if a.chg else "") + (f" RAD={a.rad}" if a.rad else "") + (f" MASS={a.mass}" if a.mass else "")
         fixed = len(f"{labels[k] + 1} {a.sym} ") + len(" 0") + len(tail) + 2  # two blanks between the three coordinates
         negs = [rng.random() < 0.4 for _ in range(3)]
-        room = t - fixed - 3 * 7 - sum(negs)  # integer digits to distribute
+        room = t - fixed - 3 * (CAL["dec"] + 1) - sum(negs)  # integer digits to distribute
         if room < 3:
             negs = [False] * 3
-            room = max(3, t - fixed - 21)
+            room = max(3, t - fixed - 3 * (CAL["dec"] + 1))
         d1 = rng.randint(1, max(1, room - 2))
         d2 = rng.randint(1, max(1, room - d1 - 1))
         d3 = max(1, room - d1 - d2)
@@ -130,6 +149,7 @@ def run(ctx):
     plan = PLAN[ctx.tier]
     monitors.install(ctx, {"C09"}, seed=f"{ctx.seed}/{ctx.shard}")
     rng = ctx.rng
+    ctx.obs["writer_decimals_observed"] = [calibrate()]
     for k in range(common.share(ctx, plan["targeted"])):
         g = targeted_graph(rng, TARGETS[k % len(TARGETS)])
         t = write(ctx, g, {"graph": graph_to_case(g)})
